@@ -331,6 +331,12 @@ theorem bstart_close_cl (a : ASt) (i : Bool) (own : Bool) : (getB (bstart true a
 theorem bstart_setEv_ev (a : ASt) (i : Bool) (own : Bool) : (getB (bstart true a i .setEv own) i).ev = true := by
   cases i <;> simp only [bstart, getB, setB, Bool.false_eq_true, if_false, if_true] <;> split <;> rfl
 
+/-- putting a `feedB` macro in front of `todo` does not disturb CInv (it only talks about close/attach/forever) -/
+theorem cinv_push_feed (a : ASt) (i : Bool) (rest : List Macro) (hc : CInv { a with todo := rest }) :
+    CInv { a with todo := .feedB i :: rest } := by
+  obtain ⟨c1, c2, c3, c4, c5, c6, c7, c8, c9, c10⟩ := hc
+  constructor <;> simp_all
+
 theorem inv_cmacro (a a' : ASt) (h : Inv a) (hm : cmacro a = some a') : Inv a' := by
   unfold cmacro at hm
   split at hm
@@ -381,6 +387,32 @@ theorem inv_cmacro (a a' : ASt) (h : Inv a) (hm : cmacro a = some a') : Inv a' :
         (by intro e; cases e; simpa [getB] using hev') (by intro e; cases e; simpa [getB] using hev')
       exact ⟨hb.pipe, hb.buf1, hb.buf2, hc'⟩
     · cases hm
+  · -- feedB i
+    rename_i i rest ht
+    split at hm
+    · rename_i hp
+      cases hm
+      have hp' : (getB a i).pend = .none := by simpa using hp
+      have hb := inv_bstart a i .feed true h hp' (by simp)
+      rw [bstart_todo]
+      have htd : (bstart true a i .feed true).todo = Macro.feedB i :: rest := by rw [bstart_todo_eq, ht]
+      have hc' := cinv_pop (bstart true a i .feed true) _ rest hb.chan htd (by simp) (by simp) (by simp) (by simp)
+      exact ⟨hb.pipe, hb.buf1, hb.buf2, hc'⟩
+    · cases hm
+  · -- emptyMove
+    rename_i rest ht
+    split at hm
+    · rename_i hp
+      cases hm
+      have hp' : (getB a true).pend = .none := by simpa [getB] using hp
+      have hb := inv_bstart a true .empty true h hp' (by simp)
+      rw [bstart_todo]
+      have htd : (bstart true a true .empty true).todo = Macro.emptyMove :: rest := by rw [bstart_todo_eq, ht]
+      have hc' := cinv_pop (bstart true a true .empty true) _ rest hb.chan htd (by simp) (by simp) (by simp) (by simp)
+      split
+      · exact ⟨hb.pipe, hb.buf1, hb.buf2, cinv_push_feed _ false rest hc'⟩
+      · exact ⟨hb.pipe, hb.buf1, hb.buf2, hc'⟩
+    · cases hm
 
 theorem inv_cadvance (fuel : Nat) (a : ASt) (h : Inv a) : Inv (cadvance fuel a) := by
   induction fuel generalizing a with
@@ -418,6 +450,15 @@ theorem inv_cbegin (a : ASt) (op : COp) (h : Inv a) (hf : chFree a = true) : Inv
         by rw [ht]; simpa using c4, c5, c6, c7, c8, c9, c10⟩⟩
     · refine ⟨hP, h1, h2, ?_⟩
       constructor <;> simp_all
+  · split
+    · exact ⟨hP, h1, h2, ⟨by rw [ht]; simpa using c1, by rw [ht]; simpa using c2, by rw [ht]; simpa using c3,
+        by rw [ht]; simpa using c4, c5, c6, c7, c8, c9, c10⟩⟩
+    · refine ⟨hP, h1, h2, ?_⟩
+      constructor <;> simp_all
+  · exact ⟨hP, h1, h2, ⟨by rw [ht]; simpa using c1, by rw [ht]; simpa using c2, by rw [ht]; simpa using c3,
+      by rw [ht]; simpa using c4, c5, c6, c7, c8, c9, c10⟩⟩
+  · refine ⟨hP, h1, h2, ?_⟩
+    constructor <;> simp_all
 
 theorem inv_step (a : ASt) (act : Act) (h : Inv a) : Inv (step true a act) := by
   cases act with
